@@ -875,6 +875,14 @@ def run_batch(prop, tier, rng, cases, n_corpus):
             sp = [d for d in c.get('spike_days', []) if d0 - 2 <= d <= d1]
             if sp and rng.random() < 0.7:
                 cut = rng.choice(sp)          # the later data start right after a one-bar jump
+            # an asset whose first priced bar lies inside the range: the future starts shortly before its listing
+            firsts = []
+            for rows in c['market'].values():
+                priced = [(dtm.date.fromisoformat(x[0]) - EPOCH).days for x in rows if x[2] is not None]
+                if priced and d0 < priced[0] <= d1:
+                    firsts.append(priced[0])
+            if firsts and rng.random() < 0.6:
+                cut = max(d0 - 2, rng.choice(firsts) - rng.choice([1, 1, 2, 3]))
             cuts.append(cut)
             cases2.append(dict(c, market=cut_market(rng, c, cut)))
         reals2 = run_many(cases2)
